@@ -26,14 +26,15 @@
     row error, never with a schema error.  Condition (c) is not a convenience: both of its clauses are
     refuted when dropped ([C01_converges_refuted_index_moves], [_new_table_clash]), and both witnesses
     fail on real SQLite.
-    MISSING for the full statement: (1) condition (b) is assumed per table, not derived from a purely
-    syntactic description of the feature set; (2) inline UNIQUE constraints in the current database
+    MISSING for the full statement: (1) condition (b) is a computable round-trip check (per table, or by
+    [C01_desired_ok_by_parts] per check list / column / primary key / index / foreign-key list), not
+    a purely syntactic description of the feature set; (2) inline UNIQUE constraints in the current database
     (refuted in general: C01_converges_refuted_drop_unique); (3) SQL text and SQLite itself: the engine
     is a model, tied to real go-sqlite3 by the correspondence stages. *)
 From Coq Require Import List NArith ZArith Bool Arith.
 From Atlas Require Import Base.Bytes Diff.Schema Diff.DiffModel Diff.DiffSqlite
   Sqlite.PlanModel Sqlite.PlanProofs Sqlite.EngineModel Sqlite.InspectModel Sqlite.ConvergeDefs Sqlite.ConvergeStep
-  Sqlite.Converge Sqlite.ConvergeSupported Sqlite.EngineRowsProofs Sqlite.ConvergeRows.
+  Sqlite.Converge Sqlite.ConvergeSupported Sqlite.EngineRowsProofs Sqlite.ConvergeRows Sqlite.ConvergeParts.
 Import ListNotations.
 
 (** ** the theorems *)
@@ -91,6 +92,13 @@ Theorem C01_create_converges :
     exists p d', diff_and_plan nm [] B = Some p /\ exec_all empty_db (plan_stmts p) = Ok d' /\ synced nm d' B.
 Proof. exact (fun nm B H => converges_supported nm empty_db B H). Qed.
 Print Assumptions C01_create_converges.
+
+(** condition (b) of a desired table from its parts: the table is creatable and its check list, each
+    column, its primary key, each index and its foreign-key list round-trip on their own (a computable
+    check that does not run the differ on the whole table) *)
+Theorem C01_desired_ok_by_parts : forall bx : xtable, desired_parts_b bx = true -> desired_ok bx.
+Proof. exact desired_ok_by_parts. Qed.
+Print Assumptions C01_desired_ok_by_parts.
 
 (** for every input of the planner (no hypothesis on the schemas or on the change list): a plan that drops
     a table -- DROP TABLE or the rebuild -- is bracketed by PRAGMA foreign_keys = off / on, no other plan
@@ -152,6 +160,8 @@ Example C01_ex_plans :
    match diff_and_plan nm (inspect (run empty_db ex_A)) ex_B with Some p => length (p_changes p) | None => 0 end,
    match diff_and_plan nm (inspect (run (run empty_db ex_A) ex_B)) ex_C with Some p => length (p_changes p) | None => 0 end)
   = (1, 2, 7).
+Proof. vm_compute. reflexivity. Qed.
+Example C01_ex_parts : forallb desired_parts_b (ex_A ++ ex_B ++ ex_C) = true.
 Proof. vm_compute. reflexivity. Qed.
 Example C01_ex_bracket :
   match diff_and_plan nm (inspect (run (run empty_db ex_A) ex_B)) ex_C with
